@@ -277,130 +277,87 @@ class _DState:
         if exc is not None:
             raise Viol('datadir.user', f'write_jsondict:raises:{type(exc).__name__}', str(exc)[:200])
         exp = json_normalise(d)
-        self.files[name] = ('json', exp)
+        self.files[name] = ('jsondict', exp)       # written by write_jsondict: read_jsondict owes the round trip
         got = self.dd.read_jsondict(self.ufn(op))
         if not json_equal(got, exp):
             raise Viol('datadir.roundtrip', 'jsondict', f'{got!r} != {exp!r}'[:300])
         self.probe('json_roundtrip')
         self.only_changed(pre, [name])
 
-    def do_write_jsonfile(self, op):
+    def follow(self, name):
+        """the model of a user file follows what the file holds now (after a call whose effect on user files the
+        statement does not describe)"""
+        import json
+        self.files.pop(name, None)
+        p = self.upath(name)
+        if os.path.isfile(p) and not os.path.islink(p):
+            with open(p, 'rb') as f:
+                raw = f.read()
+            try:
+                self.files[name] = ('json', json.loads(raw.decode('utf-8')))
+            except ValueError:
+                self.files[name] = ('raw', None)
+
+    def unjudged_user_call(self, op, what, call):
+        """write_jsonfile, update_jsondict, open_file on a *user* name: C20 names them only in its protection clause, so
+        the call is made, the array's own files must stay byte-identical, and the model follows the user file"""
         name = op['name']
-        v = M.build_value(op['v'])
-        existed = os.path.exists(self.upath(name))
         pre = snapshot(self.path)
         exc = None
         try:
-            self.dd.write_jsonfile(self.ufn(op), v, overwrite=op['overwrite'])
+            call()
         except Exception as e:   # noqa
             exc = e
-        if existed and not op['overwrite']:
-            if exc is None:      # refusing is what is owed; the class of the exception is not named
-                raise Viol('datadir.overwrite', 'write_jsonfile:replaced_without_overwrite', name)
-            if snap_diff(pre, snapshot(self.path)):
-                raise Viol('datadir.overwrite', 'write_jsonfile:refused_but_changed', name)
-            return
-        if exc is not None:
-            raise Viol('datadir.user', f'write_jsonfile:raises:{type(exc).__name__}', str(exc)[:200])
-        exp = json_normalise(v)
-        self.files[name] = ('json', exp)
-        got = self.dd.read_jsonfile(self.ufn(op))
-        if not json_equal(got, exp):
-            raise Viol('datadir.roundtrip', 'jsonfile', f'{got!r} != {exp!r}'[:300])
+        self.follow(name)
+        self.probe(f'{what}_on_user_file:' + (type(exc).__name__ if exc else 'accepted'))
         self.only_changed(pre, [name])
 
+    def do_write_jsonfile(self, op):
+        v = M.build_value(op['v'])
+        self.unjudged_user_call(op, 'write_jsonfile', lambda: self.dd.write_jsonfile(self.ufn(op), v, overwrite=op['overwrite']))
+
     def do_update_jsondict(self, op):
-        name = op['name']
         d = M.build_dict(op['d'])
-        pre = snapshot(self.path)
-        cur = None
-        if name in pre and pre[name][0] == 'file':
-            # what the file holds now, by an independent parse (appends may keep it a valid dict)
-            import json
-            try:
-                cur = ('json', json.loads(pre[name][2].decode('utf-8')))
-            except ValueError:
-                cur = ('raw', None)
-        exc, ret = None, None
-        try:
-            ret = self.dd.update_jsondict(self.ufn(op), d)
-        except Exception as e:   # noqa
-            exc = e
-        if cur is None or cur[0] != 'json' or not isinstance(cur[1], dict):
-            # the statement says nothing about updating a missing or non-dictionary user file: not judged;
-            # the model follows whatever the file holds now
-            self.files.pop(name, None)
-            post = snapshot(self.path)
-            if name in post and post[name][0] == 'file':
-                import json
-                try:
-                    self.files[name] = ('json', json.loads(post[name][2].decode('utf-8')))
-                except ValueError:
-                    self.files[name] = ('raw', None)
-            self.probe('update_jsondict_on_missing_or_non_dict:' + (type(exc).__name__ if exc else 'accepted'))
-            return
-        if exc is not None:
-            raise Viol('datadir.user', f'update_jsondict:raises:{type(exc).__name__}', str(exc)[:200])
-        exp = dict(cur[1])
-        exp.update(json_normalise(d))
-        self.files[name] = ('json', exp)
-        got = self.dd.read_jsondict(self.ufn(op))
-        if not json_equal(got, exp):
-            raise Viol('datadir.roundtrip', 'update_jsondict', f'{got!r} != {exp!r}'[:300])
-        self.only_changed(pre, [name])
+        self.unjudged_user_call(op, 'update_jsondict', lambda: self.dd.update_jsondict(self.ufn(op), d))
 
     def do_delete_files(self, op):
         names = op['names']
         pre = snapshot(self.path)
         arg = [self.spell(n, op.get('spell', 'str')) for n in names]
+        exc = None
         try:
             self.dd.delete_files(arg)
-        except Exception as e:
-            raise Viol('datadir.user', f'delete_files:raises:{type(e).__name__}', str(e)[:200])
+        except Exception as e:   # noqa
+            exc = e
         post = snapshot(self.path)
         removed = sorted(k for k in pre if k not in post)
-        expected = sorted({n for n in names if n in pre})
-        if removed != expected or any(pre[k] != post[k] for k in post if k in pre) or any(k not in pre for k in post):
+        existing = sorted({n for n in names if n in pre})
+        untouched = all(pre[k] == post[k] for k in post if k in pre) and all(k in pre for k in post)
+        if exc is not None:
+            # what is owed for a name that does not exist is not stated: a refusal is accepted as long as nothing but
+            # named files went away; with only existing names the call has to succeed
+            if all(n in pre for n in names):
+                raise Viol('datadir.user', f'delete_files:raises:{type(exc).__name__}', str(exc)[:200])
+            if not set(removed) <= set(existing) or not untouched:
+                raise Viol('datadir.delete_files', 'refused_but_removed_other_files', f'removed {removed}, named {names}')
+            self.probe('delete_files_with_missing_name_refused')
+        elif removed != existing or not untouched:
             raise Viol('datadir.delete_files', 'not_exactly_the_named_files', f'removed {removed}, named {names}')
-        for n in expected:
+        for n in removed:
             self.files.pop(n, None)
         self.probe('delete_files_exact')
 
     def do_open_append(self, op):
-        name = op['name']
-        pre = snapshot(self.path)
-        with self.dd.open_file(self.ufn(op), 'a', encoding='utf-8') as f:
-            f.write(op['text'])
-        cur = self.files.get(name)
-        old = ''
-        if cur is not None:
-            with_old = pre.get(name)
-            old = with_old[2].decode('utf-8') if with_old else ''
-        self.files[name] = ('raw', old + op['text'])
-        with self.dd.open_file(self.ufn(op), 'r', encoding='utf-8') as f:
-            got = f.read()
-        if got != old + op['text']:
-            raise Viol('datadir.roundtrip', 'open_file_append', f'{got!r}')
-        self.only_changed(pre, [name])
+        def call():
+            with self.dd.open_file(self.ufn(op), 'a', encoding='utf-8') as f:
+                f.write(op['text'])
+        self.unjudged_user_call(op, 'open_file_a', call)
 
     def do_open_x(self, op):
-        name = op['name']
-        existed = os.path.exists(self.upath(name))
-        pre = snapshot(self.path)
-        exc = None
-        try:
+        def call():
             with self.dd.open_file(self.ufn(op), 'x', encoding='utf-8') as f:
                 f.write(op['text'])
-        except Exception as e:   # noqa
-            exc = e
-        if existed:
-            if exc is None or snap_diff(pre, snapshot(self.path)):
-                raise Viol('datadir.overwrite', 'open_file_x_on_existing', name)
-            return
-        if exc is not None:
-            raise Viol('datadir.user', f'open_file_x:raises:{type(exc).__name__}', str(exc)[:200])
-        self.files[name] = ('txt', op['text'])
-        self.only_changed(pre, [name])
+        self.unjudged_user_call(op, 'open_file_x', call)
 
     def do_read(self, op):
         name = op['name']
@@ -411,8 +368,8 @@ class _DState:
             got = self.dd.read_txt(self.ufn(op))
             if got != cur[1]:
                 raise Viol('datadir.roundtrip', 'txt_later', f'{got!r} != {cur[1]!r}')
-        elif cur[0] == 'json':
-            got = self.dd.read_jsonfile(self.ufn(op))
+        elif cur[0] == 'jsondict':
+            got = self.dd.read_jsondict(self.ufn(op))
             if not json_equal(got, cur[1]):
                 raise Viol('datadir.roundtrip', 'json_later', '')
 
@@ -422,4 +379,9 @@ class _DState:
             if k in names:
                 continue
             if pre.get(k) != post.get(k):
-                raise Viol('datadir.user', 'touched_another_file', k)
+                if k in USERNAMES or k in self.files or k not in pre:
+                    # another *user* file changed: not described by the statement; its model follows the file
+                    self.follow(k)
+                    self.probe('user_call_touched_another_user_file')
+                    continue
+                raise Viol('datadir.user', 'touched_a_file_of_the_array', k)
